@@ -17,11 +17,7 @@ Proof. vm_compute. reflexivity. Qed.
 Lemma digest_round_trip d :
   digest_json_ok d = true -> s_bytes b85_alphabet (j_bytes b85_alphabet d) = Some d.
 Proof.
-  unfold digest_json_ok, s_bytes, j_bytes. intros O. apply andb_true_iff in O. destruct O as [B O].
-  apply orb_true_iff in O. destruct O as [L|U].
-  - apply Nat.eqb_eq in L. apply Nat.mod_divides in L; [|discriminate]. destruct L as [n L].
-    apply (b85_round_trip _ n); [exact alphabet_good|exact L|exact B].
-  - apply str_eqb_eq in U. subst d. exact unknown_digest_round_trip.
+  unfold digest_json_ok, s_bytes, j_bytes. intros B. apply b85_round_trip_all; [exact alphabet_good|exact B].
 Qed.
 
 (* evaluate the key comparisons of a lookup in a literal object *)
